@@ -66,7 +66,7 @@ def short(c):
     return c.split("::<")[0].replace("std::io::", "") if c.startswith("std::io::") else c
 
 
-def run(rep, tier="quick", replay=None, evidence_dir=None):
+def run(rep, tier="quick", replay=None, evidence_dir=None, collect_only=False):
     prog = Program(factsmod.extract())
     rep.rule("C06.R1", "no Ok constructed in the region dominated by the Err edge of a read result; no unwrap_or/ok() on a read result")
     n_switch, n_q, n_seeds = scan_ok_after_failed_read(prog, rep, "C06.R1")
@@ -107,6 +107,16 @@ def run(rep, tier="quick", replay=None, evidence_dir=None):
                             inspected = True
             rep.ob("C06.R4", "%s inspects the byte count returned by %s" % (b.path, nm[0].split("::")[-1]), inspected,
                    "a short read (end of input inside the item) is taken for a complete item: the decoder returns Ok with fewer bytes than the datum declares", b.loc(bi))
+            if nm[0] == "std::io::Read::read":
+                # `read` may return fewer bytes than asked for without the input having ended: it has to be retried (a loop),
+                # unless the buffer holds a single byte (then the count is 0 or 1 and there is nothing to retry)
+                one = False
+                if len(t["args"]) > 1 and t["args"][1].get("k") in ("copy", "move"):
+                    r_ = b.resolve_operand(t["args"][1])
+                    if r_:
+                        one = (b.local_ty(r_[0]) or "").replace(" ", "") == "[u8;1]"
+                rep.ob("C06.R4", "%s retries a partial Read::read (loop) or reads a single byte" % b.path, b.in_loop(bi) or one,
+                       "one call of Read::read is taken for the whole item: a reader that legitimately returns fewer bytes (a buffer boundary, a socket) makes a complete datum fail or be cut", b.loc(bi))
     rep.analysed["count-returning reads on a caller-supplied reader"] = n4
     rep.floor("C06.R4", "count-returning reads examined", n4, 1)
     # ---------------- R5: Option::None is produced only for the union's null branch
@@ -181,6 +191,8 @@ def run(rep, tier="quick", replay=None, evidence_dir=None):
         idx = [(bi, t) for bi, t in b.calls() if callee_names(t["func"])[0] in ("std::ops::Index::index",) and "self.buf" in b.opdesc(t["args"][0])]
         rep.ob("C06.R6", "%s decodes from self.buf[self.buf_idx..]" % fn.split("::")[-1], len(idx) >= 1 and all("RangeFrom" in str(t["func"].get("ga")) or "RangeFrom" in (b.local_ty(op_local(t["args"][1])) or "") for bi, t in idx),
                "", b.loc())
+    if collect_only:
+        return rep
     rep.not_decided = ["validate(decode(b)) for concrete values (UTF-8, uuid text, decimal widths)", "re-encode equality"]
     return common.finish(rep, level="other",
                          explanation="static rules over MIR: (R1/R3) dominance query 'Ok constructed only reachable via the Err edge of a read result' over every Read-bounded function; (R2) variant-partitioned path summaries of decode_internal vs validate_internal",
